@@ -72,8 +72,8 @@ def check(ctx):
             # R2: range check dominates every mutation
             thr = [e for e, l in flat_effects(s.effects) if e['kind'] == 'throw']
             cond = ('>', K, n)
-            if thr and all(T.conj(e['pc']) == cond for e in thr) and \
-                    all(T.conj(e['pc']) == T.lnot(cond) for e in er):
+            if thr and all(same_cond(T.conj(e['pc']), cond) for e in thr) and \
+                    all(same_cond(T.conj(e['pc']), T.lnot(cond)) for e in er):
                 ctx.holds('R2.range_check_first', where, 'k > n throws before anything is erased; every '
                           'erase happens under k <= n; k = n erases the empty range')
             else:
